@@ -64,6 +64,8 @@ def decode_ext(ext: str, blank: str):
 
 
 def check_sim(ctx: Ctx, m: MNTM, w: str, n: int, origin: str, native_budget: int = 0):
+    if E.gave_up():
+        return None
     drv = ctx.driver(DRV)
     enc, st = E.enc_mntm(m)
     ys, end = E.observe(m.read_input_as_ntm(w), n)
@@ -95,6 +97,10 @@ def check_sim(ctx: Ctx, m: MNTM, w: str, n: int, origin: str, native_budget: int
                 got.append((c.state, v))
             if not wrong:
                 wrong += ["simulation: " + x for x in oracle_mntm_check(m, w, got, end, n, info)]
+    if info.get("maxlevel", 0) >= 2:
+        ctx.stat("sim_level_with_2+_configurations")
+    if info.get("depth", 0) >= 3:
+        ctx.stat("sim_depth_3+")
     if info.get("left"):
         ctx.stat("sim_head_left_of_leftmost_cell")
     if info.get("right"):
@@ -112,6 +118,8 @@ def check_sim(ctx: Ctx, m: MNTM, w: str, n: int, origin: str, native_budget: int
 
 def check_pair(ctx: Ctx, m: MNTM, w: str, n: int, origin: str):
     """Verdict of the native run (n calls) vs. the simulation (5n+10 calls)."""
+    if E.gave_up():
+        return None
     drv = ctx.driver(DRV)
     nys, nend = E.observe(m.read_input_stepwise(w), n)
     vn = E.verdict_of(nend)
@@ -128,7 +136,7 @@ def check_pair(ctx: Ctx, m: MNTM, w: str, n: int, origin: str):
             wrong.append(f"native verdict {vn}, simulation {vs}")
         else:
             for name, f, v in (("accepts_input", lambda: m.accepts_input(w), vn),):
-                r = call(f)
+                r = E.bounded_call(f)
                 if r != ("ok", v == "accept"):
                     wrong.append(f"{name} = {r} but the stepwise verdict is {v}")
     elif vn.startswith("crash"):
@@ -259,7 +267,7 @@ def run(ctx: Ctx):
                 check_pair(ctx, m, w, 8, "exhaustive_2tape_2rows_sampled")
         ctx.note(f"{cnt} sampled two-row two-tape tables")
     # 2. shaped random
-    for _ in range(ctx.budget(1500, 40000)):
+    for _ in range(ctx.budget(3500, 40000)):
         m = E.rand_mntm(rng, n_tapes=rng.choice([1, 2, 2, 3, 3]))
         for _ in range(2):
             w = E.rand_input(rng, m)
